@@ -64,7 +64,7 @@ def run(ctx):
         diff = [z for z, _ in ZONES if digest(per_zone[z][kind][i]) != digest(per_zone["UTC"][kind][i])]
         ctx.report("C18_ZoneIndependent kind=%s" % kind, "differs under %s: %s" % (diff, json.dumps(per_zone["UTC"][kind][i])[:300]),
                    {"kind": kind, "utc": per_zone["UTC"][kind][i], "other": {z: per_zone[z][kind][i] for z in diff[:2]}})
-    ctx.evaluations += len(side)
+    ctx.evaluations += len(side) + sum(len(per_zone[z][k]) for z, _ in ZONES[1:] for k in ("calendar", "ticks", "nice", "map"))
     nt = 0
     for kind in ("calendar", "ticks", "nice", "map"):
         for rec in per_zone["UTC"][kind]:
